@@ -261,6 +261,86 @@ func (br *BoundsRules) inRangeLoopOver(fc *FuncCtx, idx ssa.Value, ap string) bo
 	return false
 }
 
+// nonNegative: v cannot be negative at b: unsigned, a non-negative constant, a length, a loop counter or range index,
+// sums/products/quotients/remainders of such values, a widening conversion of one, or a value the path condition
+// compares with 0 (v >= 0, v > -1).
+func (br *BoundsRules) nonNegative(fc *FuncCtx, b *ssa.BasicBlock, v ssa.Value, depth int) bool {
+	lb, ok := br.lowerBound(fc, b, v, depth)
+	return ok && lb >= 0
+}
+
+func (br *BoundsRules) lowerBound(fc *FuncCtx, b *ssa.BasicBlock, v ssa.Value, depth int) (int64, bool) {
+	if depth > 6 {
+		return 0, false
+	}
+	if bt, ok := v.Type().Underlying().(*types.Basic); ok && bt.Info()&types.IsUnsigned != 0 {
+		return 0, true
+	}
+	if k, ok := constInt(v); ok {
+		return k, true
+	}
+	B := br.A.B
+	ap := fc.AP(v)
+	if n := "lt(" + ap + ",c:0)"; B.HasVar(n) && fc.Implied(b, B.Not(B.Var(n))) {
+		return 0, true
+	}
+	if n := "lt(c:-1," + ap + ")"; B.HasVar(n) && fc.Implied(b, B.Var(n)) {
+		return 0, true
+	}
+	switch x := v.(type) {
+	case *ssa.Call:
+		if lenArg(x) != nil {
+			return 0, true
+		}
+		if bi, ok := x.Call.Value.(*ssa.Builtin); ok && (bi.Name() == "cap" || bi.Name() == "copy") {
+			return 0, true
+		}
+	case *ssa.Extract:
+		if _, ok := x.Tuple.(*ssa.Next); ok && x.Index == 1 {
+			if _, isInt := x.Type().Underlying().(*types.Basic); isInt {
+				return 0, true // key of a range over a string
+			}
+		}
+	case *ssa.Phi:
+		// loop counter: starts somewhere and only grows
+		if len(x.Edges) == 2 {
+			for i, e := range x.Edges {
+				if bo, ok := e.(*ssa.BinOp); ok && bo.Op == token.ADD && bo.X == x {
+					if k, ok := constInt(bo.Y); ok && k > 0 {
+						return br.lowerBound(fc, b, x.Edges[1-i], depth+1)
+					}
+				}
+			}
+		}
+	case *ssa.Convert:
+		if ft, ok := x.X.Type().Underlying().(*types.Basic); ok && ft.Info()&types.IsInteger != 0 && !narrowsInteger(x.X.Type(), x.Type()) {
+			if ft.Info()&types.IsUnsigned != 0 {
+				// unsigned -> wider signed keeps the value
+				tt, _ := x.Type().Underlying().(*types.Basic)
+				if tt != nil && stdSizes.Sizeof(tt) > stdSizes.Sizeof(ft) {
+					return 0, true
+				}
+				return 0, false
+			}
+			return br.lowerBound(fc, b, x.X, depth+1)
+		}
+	case *ssa.BinOp:
+		l, ok1 := br.lowerBound(fc, b, x.X, depth+1)
+		r, ok2 := br.lowerBound(fc, b, x.Y, depth+1)
+		switch x.Op {
+		case token.ADD:
+			if ok1 && ok2 {
+				return l + r, true
+			}
+		case token.MUL, token.QUO, token.REM, token.SHR, token.AND:
+			if ok1 && ok2 && l >= 0 && r >= 0 {
+				return 0, true
+			}
+		}
+	}
+	return 0, false
+}
+
 type boundsOpts struct {
 	OnlySchemaDerived bool // respond scope: only slices that are fields of schema types (metadata/request data)
 }
@@ -284,6 +364,18 @@ func (br *BoundsRules) schemaDerived(v ssa.Value) bool {
 			v = x.X
 		case *ssa.Index:
 			v = x.X
+		case *ssa.Slice:
+			v = x.X
+		case *ssa.Parameter:
+			// a helper handed a list of schema values
+			t := derefType(x.Type()).Underlying()
+			switch tt := t.(type) {
+			case *types.Slice:
+				return br.S.isSchemaType(tt.Elem())
+			case *types.Array:
+				return br.S.isSchemaType(tt.Elem())
+			}
+			return false
 		default:
 			return false
 		}
@@ -442,7 +534,11 @@ func (br *BoundsRules) checkIndex(fc *FuncCtx, b *ssa.BasicBlock, in ssa.Instruc
 	B := br.A.B
 	name := "lt(" + fc.AP(idx) + ",len(" + ap + "))"
 	if B.HasVar(name) && fc.Implied(b, B.Var(name)) {
-		br.R.OK(rule, cons, p.InstrPos(in), "guarded by index < len")
+		if br.nonNegative(fc, b, idx, 0) {
+			br.R.OK(rule, cons, p.InstrPos(in), "guarded by index < len, index not negative")
+			return
+		}
+		br.R.Bad(rule, cons, p.InstrPos(in), "the index is guarded by index < len only: it is a signed value computed by subtraction or taken from input, and nothing establishes index >= 0")
 		return
 	}
 	br.R.Bad(rule, cons, p.InstrPos(in), "index expression is not one of the justified idioms (range induction, constant under a length guard, len-c under a guard)")
